@@ -117,6 +117,7 @@ func (r *run) local(a *actor, d *dtState, x api, e Ev) {
 		panic(abortRun{})
 	}
 	d.nLocal++
+	d.nLocalSinceOpen++
 	r.logf("%s %s.%s %s %v -> err=%v view=%s", a.name, d.key, e.Op, e.K, kernel.Canon(e.V), err, clip(r.viewOf(d), 200))
 }
 
